@@ -1506,7 +1506,11 @@ class ProvBundle(object):
         # TODO: Check unification rules in the PROV-CONSTRAINTS document
         # This method simply merges the records having the same name
         merged_records = dict()
-        for identifier, records in self._id_map.items():
+        records_by_type_and_id = defaultdict(list)
+        for identifier, same_id_records in self._id_map.items():
+            for record in same_id_records:
+                records_by_type_and_id[(record.get_type(), identifier)].append(record)
+        for records in records_by_type_and_id.values():
             if len(records) > 1:
                 # more than one record having the same identifier
                 # merge the records
